@@ -5,6 +5,7 @@ pub mod engine;
 pub mod fuzz_entry;
 pub mod pyref;
 pub mod suites;
+pub mod wrappers;
 pub mod tape;
 pub mod props;
 pub mod spy_alloc;
